@@ -12,6 +12,7 @@ pub mod jsondelta;
 pub mod ops;
 pub mod outputs;
 pub mod rrdp;
+pub mod rrdp2;
 pub mod rtrsrv;
 pub mod sched;
 pub mod server;
@@ -35,6 +36,7 @@ pub fn all() -> Vec<&'static Check> {
         &rrdp::C38,
         &rrdp::C31,
         &rrdp::C29,
+        &rrdp2::C25,
         &worlds2::C39,
         &hist2::C40,
         &worlds2::C41,
